@@ -249,8 +249,12 @@ fn sym_from_upper(n: usize, f: &mut dyn FnMut(usize, usize) -> f64) -> Vec<u64> 
 
 pub fn gen_matrix(rng: &mut SplitMix, max_dim: usize) -> MatCase {
     let n = rng.range(1, max_dim as u64) as usize;
+    gen_matrix_n(rng, n)
+}
+
+pub fn gen_matrix_n(rng: &mut SplitMix, n: usize) -> MatCase {
     let small = |r: &mut SplitMix| -> f64 { (r.below(17) as f64 - 8.0) / *r.pick(&[1.0, 2.0, 4.0, 3.0]) };
-    let class = rng.below(11);
+    let class = rng.below(12);
     let gram = |r: &mut SplitMix, cols: usize| -> Vec<f64> {
         let b: Vec<f64> = (0..n * cols).map(|_| small(r)).collect();
         let mut a = vec![0.0; n * n];
@@ -324,6 +328,15 @@ pub fn gen_matrix(rng: &mut SplitMix, max_dim: usize) -> MatCase {
             // all-equal entries (rank one), exactly singular for n >= 2
             let c = *rng.pick(&[1.0, 2.0, 0.5, 3.0]);
             (sym_from_upper(n, &mut |_, _| c), "rank_one_constant")
+        }
+        10 => {
+            // huge dynamic range inside one matrix: D (G + I) D with D = diag(2^k_i),
+            // k_i spread over hundreds of binades (exact scaling, so conditioning after
+            // equilibration is that of G + I, but pivots / products span the whole range)
+            let a = gram(rng, n + 1);
+            let spread = *rng.pick(&[40i64, 150, 300, 480]);
+            let s: Vec<f64> = (0..n).map(|_| exact::scale2(1.0, rng.below(2 * spread as u64 + 1) as i64 - spread)).collect();
+            (sym_from_upper(n, &mut |i, j| (a[i * n + j] + if i == j { 1.0 } else { 0.0 }) * s[i] * s[j]), "wide_range_scaled")
         }
         _ => {
             // random uniform entries, dominant diagonal
@@ -796,6 +809,11 @@ impl C16 {
         if !sample_leg {
             let mat = if (index / 4) < fixed.len() as u64 && index % 4 == 0 {
                 fixed[(index / 4) as usize].clone()
+            } else if rng.chance(1, 16) {
+                // beyond what a sample reaches: 9..12 (cheap without the fault sweep,
+                // which is sampled for these sizes)
+                let n = rng.range(9, 12) as usize;
+                gen_matrix_n(&mut rng, n)
             } else {
                 gen_matrix(&mut rng, 8)
             };
